@@ -170,6 +170,19 @@ func driveHistory(rc *RunCtx) {
 				rc.Fail("harness", "UpdatePublicKeyAndAdjustBigXj: %v", err)
 				return nil, false
 			}
+			// the adjusted copies are what the caller holds for this session: they must come back unchanged
+			held := make([]string, len(cp))
+			for i := range cp {
+				b, _ := json.Marshal(cp[i])
+				held[i] = string(b)
+			}
+			defer func() {
+				for i := range cp {
+					if b, _ := json.Marshal(cp[i]); string(b) != held[i] && !rc.Failed() {
+						rc.Fail("key-data-modified", "session %s, signer %d: the key data handed to the signing party was modified by a session with a derivation offset:\n before %s\n after  %s", tag, i, firstDiff(held[i], string(b), true), firstDiff(held[i], string(b), false))
+					}
+				}
+			}()
 			nodes = w.AddECSigning(spids, cp, t, msg, 0, kdd)
 		} else {
 			nodes = w.AddECSigning(spids, ecKeysFor(spids, ecKeys), t, msg, 0, nil)
@@ -321,6 +334,17 @@ func driveHistory(rc *RunCtx) {
 			hist = append(hist, fmt.Sprintf("%s%v", kind, members))
 		case "sign-offset":
 			delta := new(big.Int).SetUint64(r.Uint64() | 1)
+			if r.IntN(3) > 0 {
+				// an offset anywhere in [1,q): x_i + offset wraps around q for some signers
+				db := make([]byte, 32)
+				for i := range db {
+					db[i] = byte(r.UintN(256))
+				}
+				delta = new(big.Int).Mod(new(big.Int).SetBytes(db), Secp.n)
+				if delta.Sign() == 0 {
+					delta.SetInt64(1)
+				}
+			}
 			child := Secp.Add(pub, GMul(Secp, delta, Secp.Base()))
 			tag := fmt.Sprintf("op%d", op)
 			sd, ok := runSign(tag, members, msg, delta, child, "normal", tag, true)
